@@ -1399,7 +1399,7 @@ class Evaluator:
         if name == "core::option::Option::<T>::as_mut" and args and args[0][0] == "mref":
             cur = self._mref_get(env, args[0])
             return opt_match(cur, lambda x: some(("mref", args[0][1], args[0][2] + (("d", "Some", 1), ("f", "0", 0)))), lambda: NONE)
-        if declared == "core::iter::traits::iterator::Iterator::next" and len(args) == 1 and args[0][0] == "mref" and name != RANGE_NEXT:
+        if declared == "core::iter::traits::iterator::Iterator::next" and len(args) == 1 and args[0][0] == "mref" and name not in (RANGE_NEXT, RANGEINC_NEXT):
             cur = self._mref_get(env, args[0])
             base, pos = (cur[1], cur[2]) if cur[0] == "advanced" else (cur, 0)
             if base[0] in ("call", "iter", "iop", "imap", "ifilter", "ifiltermap") and self.prog.fn(name) is None:
@@ -1428,8 +1428,10 @@ class Evaluator:
             if dflt is not None:
                 self._mref_set(env, args[0], dflt)
                 return cur
-        if name == RANGE_NEXT and args and args[0][0] == "mref" and not args[0][2]:
+        if name in (RANGE_NEXT, RANGEINC_NEXT) and args and args[0][0] == "mref" and not args[0][2]:
             cur = env.get(args[0][1], ("uninit",))
+            if name == RANGEINC_NEXT and not (cur[0] == "adt" and cur[1] == "core::ops::range::Range"):
+                raise Undecided("RangeInclusive::next on a range whose end + 1 is not known to be representable")
             if cur[0] == "adt" and cur[1] == "core::ops::range::Range":
                 lo, hi = fld(cur, "start"), fld(cur, "end")
                 if is_c(lo) and is_c(hi):
@@ -1503,8 +1505,8 @@ class Evaluator:
             s = ta["d"]["s"]
             if s in INT_TYS:
                 return s
-            if "Range<" in s:
-                inner = s.split("Range<")[1].split(">")[0]
+            if "Range<" in s or "RangeInclusive<" in s:
+                inner = s.split("Range<")[1].split(">")[0] if "Range<" in s else s.split("RangeInclusive<")[1].split(">")[0]
                 if inner in INT_TYS:
                     return inner
         return "usize"
@@ -1535,6 +1537,7 @@ class Evaluator:
 
 
 RANGE_NEXT = "core::iter::range::<impl core::iter::traits::iterator::Iterator for core::ops::range::Range<A>>::next"
+RANGEINC_NEXT = "core::iter::range::<impl core::iter::traits::iterator::Iterator for core::ops::range::RangeInclusive<A>>::next"
 def _dec(proj):
     return [{"f": e[2], "name": e[1]} if e[0] == "f" else ({"last": True} if e[0] == "last" else {"down": e[2], "name": e[1]}) for e in proj]
 
@@ -2061,6 +2064,22 @@ def _m_str_starts_with(ev, a, t, d):
     return None
 
 
+def _m_into_iter(ev, a, t, d):
+    """iterating `a..=b` visits the same values as `a..b+1` when b + 1 is representable: the inclusive range is handed to the
+    loop machinery as that half-open range (b a constant below the type's maximum, or a difference `x - k`, k >= 1)"""
+    r = a[0]
+    if r[0] == "adt" and r[1] == "core::ops::range::RangeInclusive":
+        lo, hi = fld(r, "start"), fld(r, "end")
+        ty = lo[2] if is_c(lo) else (hi[2] if is_c(hi) else (hi[4] if hi[0] == "bin" and len(hi) == 5 else None))
+        if ty in INT_TYS:
+            if is_c(hi) and isinstance(hi[1], int) and hi[1] < ty_range(ty)[1]:
+                return adt("core::ops::range::Range", "Range", (("start", lo), ("end", C(hi[1] + 1, ty))))
+            if hi[0] == "bin" and len(hi) == 5 and hi[1] == "Sub" and is_c(hi[3]) and isinstance(hi[3][1], int) and hi[3][1] >= 1 and hi[4] == ty:
+                end = hi[2] if hi[3][1] == 1 else binop("Sub", hi[2], C(hi[3][1] - 1, ty), ty)
+                return adt("core::ops::range::Range", "Range", (("start", lo), ("end", end)))
+    return r
+
+
 DEFAULT_MODELS = {
     "core::str::<impl str>::ends_with": _m_str_ends_with,
     "core::str::<impl str>::starts_with": _m_str_starts_with,
@@ -2161,7 +2180,7 @@ DEFAULT_MODELS = {
     "core::iter::traits::iterator::Iterator::filter": _m_ifilter,
     "core::iter::traits::iterator::Iterator::filter_map": _m_ifilter_map,
     "core::iter::traits::iterator::Iterator::collect": _m_collect,
-    "<I as core::iter::traits::collect::IntoIterator>::into_iter": _ident,
+    "<I as core::iter::traits::collect::IntoIterator>::into_iter": _m_into_iter,
     "core::ops::range::RangeInclusive::<Idx>::contains": _m_contains,
     "core::ops::range::RangeInclusive::<Idx>::new": _m_rangeinc_new,
 }
